@@ -95,7 +95,7 @@ def compatible(guards_a, guards_b, ctx):
         for cb in expand_abs(guards_b, ctx):
             if self_contradictory(cb):
                 continue
-            if not contradictory(ca, cb):
+            if not contradictory(ca, cb) and sxm.isinstance_feasible(list(ca) + list(cb)):
                 return True
     return False
 
